@@ -240,6 +240,8 @@ def layers(tier):
                     'OverlapFilter.filter_tables on UNIV(%d) x overlap_size x op x score flag x n_jobs and on '
                     'STR({a,b},5) under q-gram tokenizers; exact pair set and score = overlap' % Kt,
                     min_nontrivial=1000, chunksize=2))
+    from checks.configx import filter_config_layer
+    Ls.append(filter_config_layer(['C06'], quick))
     return Ls
 
 
